@@ -1,11 +1,11 @@
 (** Extraction of the C01 models (ExtrOcamlBasic only). *)
 From Coq Require Import ZArith List.
 From Coq Require Import ExtrOcamlBasic.
-From Webp Require Vp8l.Vp8lPixel Vp8l.Vp8lSpec Vp8l.Vp8lImport.
+From Webp Require Vp8l.Vp8lPixel Vp8l.Vp8lSpec Vp8l.Vp8lImport Vp8l.Vp8lEmit Vp8l.Vp8lWf Vp8l.Vp8lTrace.
 
 Separate Extraction
   BinInt.Z.add BinInt.Z.mul BinInt.Z.sub BinInt.Z.opp BinInt.Z.div BinInt.Z.modulo
   BinInt.Z.eqb BinInt.Z.ltb BinInt.Z.leb BinInt.Z.of_nat BinInt.Z.to_nat BinInt.Z.of_N BinInt.Z.to_N
   BinNat.N.add BinNat.N.mul BinNat.N.of_nat BinNat.N.to_nat
-  Vp8lSpec.decode_header Vp8lSpec.decode
+  Vp8lSpec.decode_header Vp8lSpec.decode Vp8lEmit.emit Vp8lEmit.sem Vp8lWf.wf_planb Vp8lTrace.trace_decode Vp8lTrace.prefix_then_zeros
   Vp8lImport.nrgba_model_chan Vp8lImport.fixed_fast_chan Vp8lImport.cleanup.
